@@ -9,6 +9,7 @@ import (
 	"fmt"
 	"math/big"
 	"strings"
+	"time"
 
 	sdkmath "cosmossdk.io/math"
 	sdk "github.com/cosmos/cosmos-sdk/types"
@@ -23,7 +24,6 @@ import (
 	porttypes "github.com/cosmos/ibc-go/v8/modules/core/05-port/types"
 	host "github.com/cosmos/ibc-go/v8/modules/core/24-host"
 	"github.com/cosmos/ibc-go/v8/modules/core/exported"
-	ibctm "github.com/cosmos/ibc-go/v8/modules/light-clients/07-tendermint"
 	localhost "github.com/cosmos/ibc-go/v8/modules/light-clients/09-localhost"
 	"github.com/ethereum/go-ethereum/common"
 
@@ -123,11 +123,16 @@ func ChannelTo(c *lib.Chain, ctx sdk.Context, firstSeq uint64, remoteChannelID s
 		remoteChannelID = channelID
 	}
 	connectionID := connectiontypes.FormatConnectionIdentifier(channelSequence)
-	clientID := clienttypes.FormatClientIdentifier(exported.Localhost, channelSequence)
+	// the connection sits on ibc-go's own 09-localhost light client (client id "09-localhost", created by the client module's
+	// InitGenesis): its proof verification reads the "counterparty's" commitment out of the LOCAL IBC store, which lets the
+	// harness drive the real MsgRecvPacket handler (RealRecv) without a second chain
+	clientID := exported.LocalhostClientID
 
 	revision := clienttypes.ParseChainID(ctx.ChainID())
 	localHostClient := localhost.NewClientState(clienttypes.NewHeight(revision, uint64(ctx.BlockHeight())))
-	app.IBCKeeper.ClientKeeper.SetClientState(ctx, clientID, localHostClient)
+	if _, found := app.IBCKeeper.ClientKeeper.GetClientState(ctx, clientID); !found {
+		app.IBCKeeper.ClientKeeper.SetClientState(ctx, clientID, localHostClient)
+	}
 
 	params := app.IBCKeeper.ClientKeeper.GetParams(ctx)
 	allowed := false
@@ -139,9 +144,6 @@ func ChannelTo(c *lib.Chain, ctx sdk.Context, firstSeq uint64, remoteChannelID s
 		app.IBCKeeper.ClientKeeper.SetParams(ctx, params)
 	}
 
-	prevConsState := &ibctm.ConsensusState{Timestamp: ctx.BlockTime(), NextValidatorsHash: ctx.BlockHeader().NextValidatorsHash}
-	height := clienttypes.NewHeight(0, uint64(ctx.BlockHeight()))
-	app.IBCKeeper.ClientKeeper.SetClientConsensusState(ctx, clientID, height, prevConsState)
 
 	channelCapability, err := app.ScopedIBCKeeper.NewCapability(ctx, host.ChannelCapabilityPath(portID, channelID))
 	lib.Must(err)
@@ -149,7 +151,7 @@ func ChannelTo(c *lib.Chain, ctx sdk.Context, firstSeq uint64, remoteChannelID s
 
 	connectionEnd := connectiontypes.NewConnectionEnd(connectiontypes.OPEN, clientID,
 		connectiontypes.Counterparty{ClientId: "clientId", ConnectionId: "connection-1", Prefix: commitmenttypes.NewMerklePrefix([]byte("prefix"))},
-		connectiontypes.GetCompatibleVersions(), 500)
+		connectiontypes.GetCompatibleVersions(), 0)
 	app.IBCKeeper.ConnectionKeeper.SetConnection(ctx, connectionID, connectionEnd)
 
 	channel := channeltypes.NewChannel(channeltypes.OPEN, channeltypes.UNORDERED, channeltypes.NewCounterparty(portID, remoteChannelID), []string{connectionID}, transfertypes.Version)
@@ -212,6 +214,107 @@ func CoreRecvTx(c *lib.Chain, ctx sdk.Context, pkt channeltypes.Packet, relayer 
 	success, ack = CoreRecv(c, txCtx, pkt, relayer)
 	writeTx()
 	return success, ack, nil
+}
+
+// RealRecv delivers the packet through ibc-go's OWN MsgRecvPacket handler (modules/core/keeper/msg_server.go RecvPacket): channel
+// and connection checks, capability lookup, timeout check, proof verification (09-localhost client: the commitment the remote end
+// "made" is written into the local IBC store for the duration of the call), replay protection / receipt, the application
+// callback under the core's cache rule, WriteAcknowledgement.  refused = the core itself rejected the message (err);
+// otherwise success = ack.Success() of the acknowledgement the core stored (read back from its event).
+func RealRecv(c *lib.Chain, ctx sdk.Context, pkt channeltypes.Packet, relayer sdk.AccAddress) (success bool, ack []byte, err error) {
+	store := ctx.KVStore(c.App.GetKey(exported.StoreKey))
+	ckey := host.PacketCommitmentKey(pkt.SourcePort, pkt.SourceChannel, pkt.Sequence)
+	if store.Has(ckey) {
+		panic(fmt.Sprintf("RealRecv: a commitment already sits at %s (the remote end's channel id is a local one: use another sequence)", ckey))
+	}
+	store.Set(ckey, channeltypes.CommitPacket(c.App.AppCodec(), pkt))
+	defer store.Delete(ckey)
+	em := sdk.NewEventManager()
+	_, err = c.App.IBCKeeper.RecvPacket(ctx.WithEventManager(em), &channeltypes.MsgRecvPacket{
+		Packet: pkt, ProofCommitment: localhost.SentinelProof, ProofHeight: clienttypes.NewHeight(0, 1), Signer: relayer.String()})
+	if err != nil {
+		return false, nil, err
+	}
+	for _, ev := range em.Events() {
+		if ev.Type != channeltypes.EventTypeWriteAck {
+			continue
+		}
+		for _, a := range ev.Attributes {
+			if a.Key == channeltypes.AttributeKeyAckHex {
+				ack, _ = hex.DecodeString(a.Value)
+			}
+		}
+	}
+	if ack == nil {
+		return true, nil, nil // asynchronous acknowledgement (not used by this stack)
+	}
+	var parsed channeltypes.Acknowledgement
+	if e := channeltypes.SubModuleCdc.UnmarshalJSON(ack, &parsed); e != nil {
+		return false, ack, fmt.Errorf("acknowledgement not decodable: %w", e)
+	}
+	return parsed.Success(), ack, nil
+}
+
+// RealRecvTx is RealRecv inside the MsgRecvPacket transaction: a panic (panicked != nil), or the core refusing the message
+// (refused != nil), fails the transaction — nothing is written.
+func RealRecvTx(c *lib.Chain, ctx sdk.Context, pkt channeltypes.Packet, relayer sdk.AccAddress) (success bool, ack []byte, refused error, panicked interface{}) {
+	txCtx, writeTx := ctx.CacheContext()
+	defer func() {
+		if r := recover(); r != nil {
+			success, ack, refused, panicked = false, nil, nil, r
+		}
+	}()
+	ok, a, err := RealRecv(c, txCtx, pkt, relayer)
+	if err != nil {
+		return false, nil, err, nil
+	}
+	writeTx()
+	return ok, a, nil, nil
+}
+
+// RealAck delivers an acknowledgement through ibc-go's own MsgAcknowledgement handler (channel keeper AcknowledgePacket: channel /
+// connection / capability checks, the packet commitment must exist and match, proof of the acknowledgement through the
+// 09-localhost client — the remote end's acknowledgement commitment is written into the local store for the duration of the
+// call —, commitment deleted, application callback; a callback error fails the message).  A packet without commitment is a
+// no-op for the core (nil error, nothing happens).
+func RealAck(c *lib.Chain, ctx sdk.Context, pkt channeltypes.Packet, ack []byte, relayer sdk.AccAddress) error {
+	store := ctx.KVStore(c.App.GetKey(exported.StoreKey))
+	akey := host.PacketAcknowledgementKey(pkt.DestinationPort, pkt.DestinationChannel, pkt.Sequence)
+	if store.Has(akey) {
+		panic(fmt.Sprintf("RealAck: an acknowledgement already sits at %s", akey))
+	}
+	store.Set(akey, channeltypes.CommitAcknowledgement(ack))
+	defer store.Delete(akey)
+	_, err := c.App.IBCKeeper.Acknowledgement(ctx, &channeltypes.MsgAcknowledgement{
+		Packet: pkt, Acknowledgement: ack, ProofAcked: localhost.SentinelProof, ProofHeight: clienttypes.NewHeight(0, 1), Signer: relayer.String()})
+	return err
+}
+
+// RealTimeout delivers a timeout through ibc-go's own MsgTimeout handler (channel keeper TimeoutPacket: the timeout must have
+// passed on the remote end — with the 09-localhost client that is the local block time, so the call runs at a block time past the
+// packet's timeout timestamp —, the commitment must exist and match, proof that the remote end has no receipt, commitment
+// deleted, application callback).
+func RealTimeout(c *lib.Chain, ctx sdk.Context, pkt channeltypes.Packet, relayer sdk.AccAddress) error {
+	late := ctx
+	if ts := pkt.TimeoutTimestamp; ts > 0 && uint64(ctx.BlockTime().UnixNano()) <= ts {
+		late = ctx.WithBlockTime(time.Unix(0, int64(ts)).Add(time.Second))
+	}
+	_, err := c.App.IBCKeeper.Timeout(late, &channeltypes.MsgTimeout{
+		Packet: pkt, ProofUnreceived: localhost.SentinelProof, ProofHeight: clienttypes.NewHeight(0, 1), NextSequenceRecv: 1, Signer: relayer.String()})
+	return err
+}
+
+// AppDiff drops from a store-dump diff the IBC core's own writes of a received packet (receipt, acknowledgement commitment):
+// what is left is what the APPLICATION wrote.
+func AppDiff(diff []string) []string {
+	var out []string
+	for _, l := range diff {
+		if strings.HasPrefix(l, "ibc: ") && (strings.Contains(l, hex.EncodeToString([]byte("receipts/ports/"))) || strings.Contains(l, hex.EncodeToString([]byte("acks/ports/")))) {
+			continue
+		}
+		out = append(out, l)
+	}
+	return out
 }
 
 func CoreRecv(c *lib.Chain, ctx sdk.Context, pkt channeltypes.Packet, relayer sdk.AccAddress) (success bool, ack []byte) {
